@@ -136,7 +136,7 @@ static void describe(char *dst, size_t cap, const hop_t *ops, int nops)
 static void model_history(const args_t *a, long idx)
 {
     rng_t r = rng_for(a->seed, 0xD2B6, (uint64_t)idx);
-    static const unsigned GS[] = {0, 1, 31, 32, 33, 64, 100, 1000, 5000};
+    static const unsigned GS[] = {0, 1, 31, 32, 33, 64, 100, 1000, 5000, 255, 256, 257, 1023, 1024, 1025, 4096, 8192};
     static const size_t LIM[] = {0, 1, 31, 32, 33, 64, 100, 1024, 5000, 1048576, 1048577, (size_t)-1};
     static const int DEL[] = {32, 32, 32, 32, 32, 0, 7, 31, 16, 1};
     tinyjambu_prng_state_t st;
@@ -144,8 +144,8 @@ static void model_history(const args_t *a, long idx)
     static cb_t cb;
     hop_t ops[48];
     int script[64], nops, i, clen_choice = (int)rnd(&r, 4), rc, maxops = a->thorough ? 40 : 12;
-    uint8_t custom[200], fed[300];
-    size_t custom_len = clen_choice == 0 ? 0 : clen_choice == 1 ? 5 : clen_choice == 2 ? 64 + rnd(&r, 100) : rnd(&r, 64);
+    uint8_t custom[1100], fed[1100];
+    size_t custom_len = clen_choice == 0 ? 0 : clen_choice == 1 ? 5 : clen_choice == 2 ? 64 + rnd(&r, 100) : (idx % 7 == 3 ? 255 + rnd(&r, 3) + 768 * (idx % 2) : rnd(&r, 64));
     size_t evi;
     char hist[400];
     nops = 1 + (int)rnd(&r, (uint32_t)maxops);
@@ -153,7 +153,7 @@ static void model_history(const args_t *a, long idx)
     for (i = 0; i < nops; ++i) {
         int k = (int)rnd(&r, 10);
         ops[i].kind = k < 5 ? 0 : k < 7 ? 1 : k < 8 ? 2 : 3;
-        ops[i].n = ops[i].kind == 0 ? GS[rnd(&r, idx % 5 == 0 ? 9 : 7)] : ops[i].kind == 1 ? rnd(&r, 4) == 0 ? 0 : rnd(&r, 300) : ops[i].kind == 3 ? LIM[rnd(&r, 12)] : 0;
+        ops[i].n = ops[i].kind == 0 ? GS[rnd(&r, idx % 5 == 0 ? 17 : idx % 5 == 1 ? 9 : 7)] : ops[i].kind == 1 ? rnd(&r, 4) == 0 ? 0 : (rnd(&r, 9) == 0 ? 255 + rnd(&r, 3) + 768 * rnd(&r, 2) : rnd(&r, 300)) : ops[i].kind == 3 ? LIM[rnd(&r, 12)] : 0;
     }
     describe(hist, sizeof hist, ops, nops);
     set_case("{\"h\":\"prng\",\"mode\":\"model\",\"i\":%ld,\"custom_len\":%zu,\"deliveries\":[%d,%d,%d,%d,%d,%d],\"ops\":\"%s\"}", idx, custom_len,
